@@ -1,6 +1,8 @@
 package main
 
 import (
+	"fmt"
+	"runtime"
 	"strings"
 	"sync"
 	"math/big"
@@ -143,4 +145,20 @@ func refusalVerdict() string {
 		return "ok"
 	}
 	return "private-key-of-the-documented-range-refused: " + strings.Join(refusals, "; ")
+}
+
+// stable3 evaluates a verdict three times in a row on one OS thread; the three answers must coincide (state kept
+// between calls - a memo of the last input checked, say - shows as a verdict that changes on repetition)
+func stable3(f func() string) string {
+	return guard(func() string {
+		runtime.LockOSThread()
+		defer runtime.UnlockOSThread()
+		first := f()
+		for rep := 1; rep < 3; rep++ {
+			if v := f(); v != first {
+				return fmt.Sprintf("unstable: %s then %s (evaluation %d)", first, v, rep+1)
+			}
+		}
+		return first
+	})
 }
